@@ -113,7 +113,12 @@ func vc13Last(name string, ver int) (h string)  { return fmt.Sprintf("last-%s-v%
 
 // vc13Body returns the complete content of version ver of slot s with fill
 // filler entries between the first and the last marker.
-func vc13Body(s *vc13Slot, ver, fill int, svcFlavor string, pad int) (b []byte) {
+func vc13Body(s *vc13Slot, ver, fill int, flavor string, pad int) (b []byte) {
+	if flavor == "longline" || flavor == "junk" {
+		// Something must stand on both sides of the defect.
+		fill = max(fill, 4)
+	}
+
 	hosts := make([]string, 0, fill+2)
 	hosts = append(hosts, vc13First(s.name, ver))
 	for i := 0; i < fill; i++ {
@@ -126,29 +131,57 @@ func vc13Body(s *vc13Slot, ver, fill int, svcFlavor string, pad int) (b []byte) 
 	case vc13KindRule:
 		fmt.Fprintf(sb, "! vc13 list %s version %d\n", s.name, ver)
 		vc13PadLines(sb, "! ", pad)
-		for _, h := range hosts {
+		for i, h := range hosts {
+			if flavor == "junk" && i == len(hosts)/2 {
+				sb.WriteString(vc13Junk)
+			}
+
 			fmt.Fprintf(sb, "||%s^\n", h)
 		}
 	case vc13KindSS:
 		fmt.Fprintf(sb, "! vc13 list %s version %d\n", s.name, ver)
 		vc13PadLines(sb, "! ", pad)
-		for _, h := range hosts {
+		for i, h := range hosts {
+			if flavor == "junk" && i == len(hosts)/2 {
+				sb.WriteString(vc13Junk)
+			}
+
 			fmt.Fprintf(sb, "|%s^$dnsrewrite=NOERROR;CNAME;safe-%s.test\n", h, s.name)
 		}
 	case vc13KindHash:
 		fmt.Fprintf(sb, "# vc13 list %s version %d\n", s.name, ver)
 		vc13PadLines(sb, "# ", pad)
-		for _, h := range hosts {
+		for i, h := range hosts {
+			if flavor == "longline" && i == len(hosts)/2 {
+				// Longer than the token limit of bufio.Scanner.
+				sb.WriteString(strings.Repeat("x", vc13LongLine))
+				sb.WriteString(".test\n")
+			}
+
 			fmt.Fprintf(sb, "%s\n", h)
 		}
 	case vc13KindSvc:
-		return vc13SvcBody(hosts, ver, svcFlavor, pad)
+		return vc13SvcBody(hosts, ver, flavor, pad)
 	default:
 		panic("vc13: bad slot kind")
 	}
 
 	return []byte(sb.String())
 }
+
+// vc13LongLine is the length of the over-long line of a hash list; it is above
+// bufio.MaxScanTokenSize (64 KiB), so hashprefix.Storage.Reset fails on it.
+const vc13LongLine = 70_000
+
+// vc13Junk are lines that are not valid rules; the rule-list parser has no
+// error path, it skips them.
+const vc13Junk = "@@@@|||^^$$badmodifier=,,\n" +
+	"||unterminated.test^$dnsrewrite=BAD;;;\n" +
+	"$$$\n" +
+	"!#if (nonsense\n" +
+	"\x00\x01\xff\xfe binary \x7f\n" +
+	"/[unclosed regexp(/\n" +
+	"||bad^$client='unclosed\n"
 
 // vc13PadLines writes exactly pad octets of comment lines (none if pad is less
 // than the length of an empty comment line), none longer than 200 octets, so
